@@ -370,6 +370,12 @@ def exec_script(ctx, comp, script, tag, want_model=True, race=False, env=None, t
         for j in range(bad, c[1]):
             impl[j] = 'CRASH rc=%s' % rc if j == bad else 'CRASH-skipped'
         pos = c[1]
+        if sum(1 for x in crashes if x.get('rc') == 124) >= 2:
+            # two cases of this script hung for the whole time limit: the implementation is wedged in a way every further case
+            # would hit as well; report what we have instead of spending the limit again and again
+            for j in range(pos, len(script)):
+                impl[j] = 'CRASH-skipped'
+            break
     model = [None] * len(script)
     if want_model and ctx.model_ok and comp.differential:
         mo = os.path.join(ctx.work, tag + '.model')
